@@ -179,11 +179,67 @@ def observe_arr(r):
             "t0": int(np.asarray(r.t0)), "dt": int(np.asarray(r.sampling_interval)), "unit": r.time_unit}
 
 
+def observe_et(r):
+    return {"t": "et", "items": [[{"segs": [hexs(s) for s in np.atleast_2d(np.asarray(it.data, dtype=float))],
+                                   "t0": int(np.asarray(it.t0)), "dt": int(np.asarray(it.sampling_interval))}
+                                  for it in ch] for ch in r]}
+
+
+def observe_attr(attr, r):
+    if attr == "xcorr_eta":
+        return {"t": "unjudged"}
+    return observe_et(r) if attr == "et_data" else observe_arr(r)
+
+
+def run_sequence(d):
+    """ONE analyzer object; the attributes named in d['seq']['order'] are read in that order.  Every result is
+    observed three times: when it is read ('at_read'), after all the others were read - the very object handed
+    out earlier ('at_end') - and by reading the attribute again at the end ('reread')."""
+    order = d["seq"]["order"]
+    T, E = build_inputs(d)
+    dt_ps = int(np.asarray(T.sampling_interval))
+    if d["kind"] in ("eta_ev", "ets_ev"):
+        d["times_obs"] = [int(x) for x in np.asarray(E.time).ravel()]
+    a = make_analyzer(d, T, E)
+    recs, held = [], []
+    for attr in order:
+        calls, r = [], None
+        try:
+            if attr == "FIR":
+                with PinvRecorder() as rec:
+                    r = a.FIR
+                calls = rec.calls
+            else:
+                r = getattr(a, attr)
+            obs = observe_attr(attr, r)
+        except Exception as e:  # noqa
+            obs = {"t": "err", "e": type(e).__name__, "msg": str(e)[:100]}
+        recs.append({"attr": attr, "at_read": obs, "calls": calls})
+        held.append(r)
+    for rec, r in zip(recs, held):
+        try:
+            rec["at_end"] = observe_attr(rec["attr"], r) if r is not None else rec["at_read"]
+        except Exception as e:  # noqa
+            rec["at_end"] = {"t": "err", "e": type(e).__name__, "msg": str(e)[:100]}
+        try:
+            rec["reread"] = observe_attr(rec["attr"], getattr(a, rec["attr"])) if r is not None else rec["at_read"]
+        except Exception as e:  # noqa
+            rec["reread"] = {"t": "err", "e": type(e).__name__, "msg": str(e)[:100]}
+    return recs, dt_ps
+
+
 def run_case(d):
     """run the described call on the implementation; returns (observed, dt_ps, pinv calls)"""
     import nitime.utils as tsu
     calls = []
     dt_ps = None
+    if d.get("seq"):
+        try:
+            recs, dt_ps = run_sequence(d)
+        except Exception as e:  # noqa  (constructor refused the input)
+            return {"t": "err", "e": type(e).__name__, "msg": str(e)[:100]}, series_dt_ps_safe(d), []
+        rec = recs[d["seq"]["step"]]
+        return rec[d["seq"]["when"]], dt_ps, rec["calls"]
     try:
         if d["kind"] == "design":
             X = tsu.fir_design_matrix(np.array(d["events"], dtype=float), d["len"])
@@ -207,10 +263,7 @@ def run_case(d):
         elif k in ("ets", "ets_ev"):
             o = observe_arr(a.ets)
         elif k == "et_data":
-            r = a.et_data
-            o = {"t": "et", "items": [[{"segs": [hexs(s) for s in np.atleast_2d(np.asarray(it.data, dtype=float))],
-                                        "t0": int(np.asarray(it.t0)), "dt": int(np.asarray(it.sampling_interval))}
-                                       for it in ch] for ch in r]}
+            o = observe_et(a.et_data)
         else:
             raise KeyError(k)
     except Exception as e:  # noqa
@@ -840,6 +893,60 @@ def series_dt_ps(d):
     return int(np.asarray(T.sampling_interval))
 
 
+def series_dt_ps_safe(d):
+    try:
+        return series_dt_ps(d)
+    except Exception:  # noqa
+        return None
+
+
+SEQ_KIND = {"FIR": "fir", "eta": "eta", "ets": "ets", "et_data": "et_data"}
+
+
+def gen_seq(rng, big, events_repr):
+    """read sequences on one analyzer object: shuffled orders of {et_data, eta, ets, FIR, xcorr_eta} (coded series) or
+    {eta, ets} (event times); every result is judged when read, again after everything else was read (the object
+    handed out earlier) and once more by re-reading the attribute"""
+    out = []
+    if events_repr:
+        d0 = gen_events(rng, big, "eta_ev")
+        d0["bc"] = rng.random() < 0.5
+        d0["zs"] = rng.random() < 0.5
+        finish_events(rng, d0, series_dt_ps(d0))
+        order = rng.choice([["eta", "ets"], ["ets", "eta"], ["eta", "ets", "eta"], ["ets", "eta", "ets"]])
+    else:
+        d0 = gen_avg(rng, big, "eta")
+        d0["bc"] = rng.random() < 0.5
+        d0["zs"] = rng.random() < 0.5
+        order = ["et_data", "eta", "ets", "FIR", "xcorr_eta"]
+        rng.shuffle(order)
+        if rng.random() < 0.3:
+            order = order + [rng.choice(["eta", "ets", "et_data"])]
+    fr = None
+    for i, attr in enumerate(order):
+        if attr == "xcorr_eta":
+            continue
+        for when in ("at_read", "at_end", "reread"):
+            kind = SEQ_KIND[attr] + ("_ev" if events_repr else "")
+            d = dict(d0, kind=kind, seq={"order": order, "step": i, "when": when})
+            if "variant" in d0:
+                d["variant"] = dict(d0["variant"])
+            claims = list(d0.get("claims", []))
+            if kind == "fir":
+                if "exact" in claims:
+                    if fr is None:
+                        evs = d0["events"] if d0["ev2d"] else [d0["events"]]
+                        fr = all(full_rank(e, d0["len"], d0["offset"]) for e in evs)
+                    if not fr:
+                        claims.remove("exact")
+            d["claims"] = claims
+            if when == "reread":
+                d["oracle_only"] = True
+            d["class"] = "seq/%s/%s/%s%s" % (kind, when, "bc" if d0["bc"] else "nobc", "/zs" if d0.get("zs") else "")
+            out.append(d)
+    return out
+
+
 def add_linear(rng, d):
     """FIR / eta of a*y1 + b*y2 against the combination of the single estimates"""
     n = len(d["data"][0])
@@ -864,11 +971,12 @@ def prepare(d, rng=None, force=False):
         finish_events(rng, d, series_dt_ps(d))
     if "equiv" in d.get("claims", []) and (force or "partner" not in d):
         pd = dict(d, kind="eta" if d["kind"] == "eta_ev" else "ets", events=d["events_coded"], ev2d=False, claims=[])
+        pd.pop("seq", None)
         d["partner"], _, _ = run_case(pd)
     if "linear" in d.get("claims", []) and (force or "r1" not in d["linear"]):
         lin = d["linear"]
-        lin["r1"], _, _ = run_case(dict(d, claims=[], data=lin["y1"]))
-        lin["r2"], _, _ = run_case(dict(d, claims=[], data=lin["y2"]))
+        lin["r1"], _, _ = run_case(dict(d, claims=[], data=lin["y1"], seq=None))
+        lin["r2"], _, _ = run_case(dict(d, claims=[], data=lin["y2"], seq=None))
 
 
 def make_case(d, rng=None):
@@ -964,6 +1072,10 @@ def run(ctx):
     for _ in range(nd):
         inputs.append(gen_design(rng, big))
     inputs.extend(gen_large(rng, ctx.quick))
+    for _ in range(ctx.scale(26, 120)):
+        inputs.extend(gen_seq(rng, big, False))
+    for _ in range(ctx.scale(12, 60)):
+        inputs.extend(gen_seq(rng, big, True))
     cases = [make_case(d, rng) for d in inputs]
     kcases = [c for c in cases if c.in_k]
     shard = ctx.scale(60, 160)
